@@ -180,7 +180,8 @@ def _kids(r):
         return [dc.compat_record(x, y, {'via': 'element'}) for x, y in dc.compat_children(r['a'], r['b'])]
     # equiv / alias: the same examination of the element types
     dt = r['dt']
-    subs = [dt['el']] if dt['k'] == 'array' else dt.get('els') or [m['t'] for m in dt.get('mem', [])]
+    subs = {'array': lambda: [dt['el']], 'tuple': lambda: dt['els'],
+            'struct': lambda: [m['t'] for m in dt['mem']]}.get(dt['k'], lambda: [])()
     res = []
     for sdt in subs:
         res += [x for x in dc.equiv_records(sdt, [], {'via': 'element'}) if x['kind'] == r['kind']]
